@@ -83,7 +83,6 @@ Proof.
     apply quot_in_range; [exact Ha|exact Gb|].
     intros [-> ->]. vm_compute in G2. discriminate.
   - destruct (b =? 0) eqn:Gb; [discriminate|].
-    destruct ((a =? i64_min) && (b =? -1)); [discriminate|].
     injection E as <-. split; [reflexivity|]. apply Z.eqb_neq in Gb.
     apply rem_in_range; assumption.
 Qed.
@@ -110,8 +109,7 @@ Proof.
     destruct (Z.eq_dec a (-9223372036854775808)) as [->|Hne].
     + right; left. eexists. split; [reflexivity|]. vm_compute. reflexivity.
     + right; right. repeat split. lia.
-  - destruct (b =? 0) eqn:Gb; [left; reflexivity|].
-    destruct ((a =? i64_min) && (b =? -1)); discriminate.
+  - destruct (b =? 0) eqn:Gb; [left; reflexivity|]. discriminate.
 Qed.
 
 (* completeness of the Ok branch: an exact result that fits is returned as such, outside the two
@@ -121,10 +119,9 @@ Theorem perform_checked_complete :
     in_i64 a = true -> in_i64 b = true ->
     exact_op op a b = Some z -> in_i64 z = true ->
     ~ (op = OpDiv /\ a = - i64_max /\ b = -1) ->
-    ~ (op = OpMod /\ a = i64_min /\ b = -1) ->
     perform_checked op a b = RVal z false.
 Proof.
-  intros op a b z Ha Hb E Hz N1 N2. destruct op; cbn [perform_checked exact_op overflowing] in *.
+  intros op a b z Ha Hb E Hz N1. destruct op; cbn [perform_checked exact_op overflowing] in *.
   - injection E as <-. unfold overflowing. rewrite (wrap64_id _ Hz), Hz. reflexivity.
   - injection E as <-. unfold overflowing. rewrite (wrap64_id _ Hz), Hz. reflexivity.
   - injection E as <-. unfold overflowing. rewrite (wrap64_id _ Hz), Hz. reflexivity.
@@ -135,28 +132,12 @@ Proof.
     destruct (Z.eq_dec a (-9223372036854775808)) as [->|Hne].
     + vm_compute in Hz. discriminate.
     + apply N1. repeat split. lia.
-  - destruct (b =? 0) eqn:Gb; [discriminate|]. injection E as <-.
-    destruct ((a =? i64_min) && (b =? -1)) eqn:G; [|reflexivity]. exfalso.
-    apply andb_true_iff in G as [G1 G2]. apply Z.eqb_eq in G1. apply Z.eqb_eq in G2.
-    apply N2. auto.
+  - destruct (b =? 0) eqn:Gb; [discriminate|]. injection E as <-. reflexivity.
 Qed.
 
-Theorem perform_checked_panic_iff :
-  forall op a b, perform_checked op a b = RPanic <-> (op = OpMod /\ a = i64_min /\ b = -1).
-Proof.
-  intros op a b. split.
-  - destruct op; cbn [perform_checked overflowing]; try discriminate.
-    + destruct ((b =? 0) || ((a <=? - i64_max) && (b =? -1))); discriminate.
-    + destruct (b =? 0) eqn:Gb; [discriminate|].
-      destruct ((a =? i64_min) && (b =? -1)) eqn:G; [|discriminate]. intros _.
-      apply andb_true_iff in G as [G1 G2]. apply Z.eqb_eq in G1. apply Z.eqb_eq in G2. auto.
-  - intros (-> & -> & ->). reflexivity.
-Qed.
-
-(* F9: the faithful model refutes "never panics" *)
-Lemma mod_refuted :
-  exists a b, in_i64 a = true /\ in_i64 b = true /\ perform_checked OpMod a b = RPanic.
-Proof. exists i64_min, (-1). repeat split. Qed.
+(* i64::MIN % -1: the exact remainder 0, no overflow (F9 is fixed: wrapping_rem) *)
+Lemma mod_min_minus_one : perform_checked OpMod i64_min (-1) = RVal 0 false.
+Proof. reflexivity. Qed.
 
 (* ---- NULL propagation -------------------------------------------------------------------------- *)
 
@@ -169,18 +150,15 @@ Proof. destruct a; reflexivity. Qed.
 (* the operator loop: a row whose present bit is clear contributes no overflow *)
 Lemma checked_loop_all_absent :
   forall op pairs acc any,
-    (forall a b, In (a, b) pairs -> perform_checked op a b <> RPanic) ->
     exists vs, checked_loop op pairs (Some []) acc any =
                if any then VOverflow else VOk (rev acc ++ vs).
 Proof.
-  intros op pairs. induction pairs as [|[a b] rest IH]; intros acc any Hnp.
+  intros op pairs. induction pairs as [|[a b] rest IH]; intros acc any.
   - exists []. cbn [checked_loop]. rewrite qrev_eq, app_nil_r. reflexivity.
-  - cbn [checked_loop]. destruct (perform_checked op a b) as [v o|] eqn:E.
-    + rewrite andb_false_r, orb_false_r.
-      destruct (IH (v :: acc) any) as [vs Hvs].
-      { intros a' b' Hin. apply Hnp. right. exact Hin. }
-      exists (v :: vs). rewrite Hvs. cbn [rev]. rewrite <- app_assoc. reflexivity.
-    + exfalso. apply (Hnp a b); [left; reflexivity|exact E].
+  - cbn [checked_loop]. destruct (perform_checked op a b) as [v o] eqn:E.
+    rewrite andb_false_r, orb_false_r.
+    destruct (IH (v :: acc) any) as [vs Hvs].
+    exists (v :: vs). rewrite Hvs. cbn [rev]. rewrite <- app_assoc. reflexivity.
 Qed.
 
 (* ---- expression trees --------------------------------------------------------------------------- *)
@@ -217,15 +195,15 @@ Proof.
   - cbn in *. injection E as <-. split; [reflexivity|]. intros z' Hz. injection Hz as <-. exact Hc.
   - cbn [consts_in_range] in Hc. apply andb_true_iff in Hc as [Hcl Hcr].
     cbn [eval_aexpr exact_aexpr] in *.
-    destruct (eval_aexpr row l) as [a| |] eqn:El; try discriminate.
-    destruct (eval_aexpr row r) as [b| |] eqn:Er; try discriminate.
+    destruct (eval_aexpr row l) as [a|] eqn:El; try discriminate.
+    destruct (eval_aexpr row r) as [b|] eqn:Er; try discriminate.
     destruct (IHl a Hrow Hcl eq_refl) as [Xl Rl].
     destruct (IHr b Hrow Hcr eq_refl) as [Xr Rr].
     rewrite Xl, Xr.
     destruct a as [x|]; [|cbn in E; injection E as <-; split; [reflexivity|discriminate]].
     destruct b as [y|]; [|cbn in E; injection E as <-; split; [reflexivity|discriminate]].
     cbn [cell_op] in E.
-    destruct (perform_checked op x y) as [w o|] eqn:P; [|discriminate].
+    destruct (perform_checked op x y) as [w o] eqn:P.
     destruct o; [discriminate|]. injection E as <-.
     destruct (perform_checked_exact op x y w (Rl x eq_refl) (Rr y eq_refl) P) as [Ex Hw].
     rewrite Ex. split; [reflexivity|]. intros z Hz. injection Hz as <-. exact Hw.
